@@ -116,22 +116,27 @@ def choose_overload(name, candidates, engine, receiver, context, args, kwargs):
         kwargs[key] = arg_evaluator(key, value)
 
     delegate = None
-    winner_mapping = None
     for level in candidates2:
+        matches = []
         for c, mapping in level:
             try:
                 d = c.get_delegate(receiver, engine, context, args, kwargs)
             except exceptions.ArgumentException:
                 pass
             else:
-                if delegate is not None:
-                    if _is_specialization_of(winner_mapping, mapping):
-                        continue
-                    elif not _is_specialization_of(mapping, winner_mapping):
-                        raise_ambiguous()
-                delegate = d
-                winner_mapping = mapping
-        if delegate is not None:
+                matches.append((d, mapping))
+        if matches:
+            # the winner is the match that is more specific than every
+            # other match of the layer; the verdict must not depend on the
+            # order in which the layer enumerates its overloads
+            winners = [
+                d for d, mapping in matches
+                if all(mapping is other or
+                       _is_specialization_of(mapping, other)
+                       for _, other in matches)]
+            if len(winners) != 1:
+                raise_ambiguous()
+            delegate = winners[0]
             break
 
     if delegate is None:
